@@ -550,16 +550,16 @@ structure Item where
   data : List Int
   deriving Repr, DecidableEq, Inhabited
 
-/-- type table of a list of items in which equal type ids are adjacent: `(type_id, start, num)` -/
-def groupTypes : List Item → Nat → List ItemType → List ItemType
-  | [], _, acc => acc.reverse
-  | it :: rest, idx, acc =>
-    match acc with
-    | g :: acc' =>
-      if g.typeId = (it.typeId : Int) then
-        groupTypes rest (idx + 1) ({ g with num := g.num + 1 } :: acc')
-      else groupTypes rest (idx + 1) ({ typeId := it.typeId, start := idx, num := 1 } :: acc)
-    | [] => groupTypes rest (idx + 1) [{ typeId := it.typeId, start := idx, num := 1 }]
+/-- type table of a list of items: one entry `(type_id, start, num)` per run of adjacent items
+with the same type id (`idx` = index of the first item of the list) -/
+def groupTypes : List Item → Nat → List ItemType
+  | [], _ => []
+  | it :: rest, idx =>
+    match groupTypes rest (idx + 1) with
+    | g :: gs =>
+      if g.typeId = (it.typeId : Int) then { g with start := idx, num := g.num + 1 } :: gs
+      else { typeId := it.typeId, start := idx, num := 1 } :: g :: gs
+    | [] => [{ typeId := it.typeId, start := idx, num := 1 }]
 
 /-- running offsets `0, l0, l0+l1, …` (without the total) -/
 def offsetsFrom : Nat → List Nat → List Nat
@@ -581,7 +581,7 @@ def concatBytes : List (List UInt8) → List UInt8
 /-- Writes a datafile of version `ver` (3 or 4).  `deflate` is zlib's `compress`. -/
 def writeDf (ver : Nat) (deflate : List UInt8 → List UInt8) (items : List Item)
     (datas : List (List UInt8)) : List UInt8 :=
-  let types := groupTypes items 0 []
+  let types := groupTypes items 0
   let itemSizes := items.map (fun it => 8 + 4 * it.data.length)
   let stored := if ver = 3 then datas else datas.map deflate
   let storedSizes := stored.map List.length
